@@ -47,7 +47,7 @@ for (pid, v), c in sorted(conf.items()):
     shutil.copy(os.path.join(src, "demo.rs"), dst)
     notes = open(os.path.join(src, "notes.md")).read() if os.path.exists(os.path.join(src, "notes.md")) else ""
     r = runs.get((pid, v), {})
-    meta = dict(id="%s-%s%s" % (pid, suffix, v), property=pid, origin="independent sub-agent given only the property text and a scratch worktree of /repo (HEAD incl. the nine fix: commits)",
+    meta = dict(id="%s-%s%s" % (pid, suffix, v), property=pid, origin="independent sub-agent given only the property text and a scratch worktree of /repo (HEAD incl. the fix: commits)",
                 needs_to_manifest=notes.strip()[:2500],
                 confirmed=dict(c, how="tools/seedtest.py confirm: fresh scratch worktree; demo passes without the patch; with the patch the 36 unit tests and the doc tests pass and the demo fails"),
                 check_result=dict(command="tools/seedtest.py run --only ubchk,bmi2 patch.diff %s (patch applied to a scratch worktree of /repo, ./check %s quick, native variants)" % (pid, pid), exit_code=r.get("rc"), caught=(r.get("rc") == 1), signatures=r.get("signatures", [])[:8]))
